@@ -2,6 +2,8 @@ import Exetera.Props.C06
 import Exetera.Lemmas.GenKernelsCategorical
 import Exetera.Lemmas.GenKernelsLeaky
 import Exetera.Lemmas.GenKernelsFixedString
+import Exetera.Lemmas.GenKernelsToValues
+import Exetera.Lemmas.GenKernelsNumericBool
 /-!
   C06 over the TRANSLATED import transforms (`Gen/Kernels.lean`, regenerated from operations.py by tools/translate_njit.py on every
   run).
@@ -15,6 +17,8 @@ import Exetera.Lemmas.GenKernelsFixedString
   * `gen_leaky_categorical_transform_ok` (transfer, for chunks whose row offsets do not decrease at the rows written: the model computes
     the length of a free-text cell in `Nat`, the code in signed arithmetic), `gen_leaky_transform_chunk` (the statement of
     `C06.leaky_transform_chunk` for the translated `leaky_categorical_transform`).
+  * `gen_fixed_string_transform_ok`, `gen_fixed_truncates_to_n`; `gen_transform_to_values_ok` (transfer from `cellsE`),
+    `gen_transform_to_values_cells` (the translated `transform_to_values` returns exactly the cells a chunk `Encodes`).
 -/
 namespace Exetera.Props.C06Gen
 
@@ -94,5 +98,64 @@ example : categorical_transform.run [0, 0, 0] 1 [[0, 0, 0, 0, 0], [0, 2, 2, 5, 9
 -- the column subscript is really checked: `i_c` = number of columns fails at `column_inds[i_c]`
 example : categorical_transform.run [0, 0, 0] 2 [[0, 0, 0, 0, 0], [0, 2, 2, 5, 9]] [88, 88, 97, 98, 97, 98, 99, 88, 88] [0, 2, 9]
     [] [0] [] = .error (.oob "p2[p1]") := by rfl
+
+/-! ## transform_to_values
+
+  The model reads a cell with `sliceE` (the end of the slice must lie inside `column_vals`); the code is a Python slice, which clamps
+  (`PyRt.pySlice`) and never raises. The two slices are the same list (`GenK.pySlice_ints_nat`); only the model's range check
+  differs, hence transfer form: nothing is said where the model reports the end of a cell beyond the buffer (the translated kernel
+  returns the shortened cell there; last `example`). -/
+
+theorem gen_transform_to_values_ok (c : Chunk) (cinds : List (List Int)) (coffs : List Int) (hst : Staged c cinds coffs)
+    {cells : List Bytes} (h : cellsE c = .ok cells) :
+    transform_to_values.run cinds (ints c.vals) coffs (c.col : Int) (c.rows : Int) = .ok (cells.map ints) :=
+  transform_to_values_ok c cinds coffs hst h
+
+/-- `transform_to_values` as translated, on a chunk the reader filled (`Encodes`, C05) held at subscript `col_idx` of the staging
+    arrays: it returns normally (no subscript out of range or negative) and `data` is exactly the cells of the column, one byte
+    string per row written, in row order -/
+theorem gen_transform_to_values_cells (c : Chunk) (cells : List Bytes) (h : Encodes c cells) (cinds : List (List Int))
+    (coffs : List Int) (hst : Staged c cinds coffs) :
+    transform_to_values.run cinds (ints c.vals) coffs (c.col : Int) (c.rows : Int) = .ok (cells.map ints) :=
+  transform_to_values_ok c cinds coffs hst (cellsE_spec c cells h)
+
+example : cellsE C06.demoChunk = .ok [[97, 98], [], [97, 98, 99]] := by rfl
+example : transform_to_values.run [[0, 0, 0, 0, 0], [0, 2, 2, 5, 9]] [88, 88, 97, 98, 97, 98, 99, 88, 88] [0, 2, 9] 1 3
+    = .ok [[97, 98], [], [97, 98, 99]] :=
+  gen_transform_to_values_cells C06.demoChunk _ C06.demo_encodes _ _ ⟨rfl, rfl⟩
+example : transform_to_values.run [[0, 0, 0, 0, 0], [0, 2, 2, 5, 9]] [88, 88, 97, 98, 97, 98, 99, 88, 88] [0, 2, 9] 1 3
+    = .ok [[97, 98], [], [97, 98, 99]] := by rfl
+-- where the model and the code part: a cell that ends beyond `column_vals` — `sliceE` reports it, the Python slice is cut short
+example : cellsE { C06.demoChunk with inds := [0, 2, 2, 5, 9], vals := [88, 88, 97, 98, 97, 98] }
+      = .error (.oob "column_vals[start_idx:end_idx]") ∧
+    transform_to_values.run [[0, 0, 0, 0, 0], [0, 2, 2, 5, 9]] [88, 88, 97, 98, 97, 98] [0, 2, 9] 1 3
+      = .ok [[97, 98], [], [97, 98]] := ⟨by rfl, by rfl⟩
+
+/-! ## numeric_bool_transform (translated; tied to the hand model at the level of its two trimming loops only) -/
+
+/-- **partial.** FULL statement (not proved): every `.ok` run of `Transforms.boolTransform` is a run of the translated
+    `numeric_bool_transform` ending with the same `elements` / `validity` and exception code.  PROVED: the first trimming loop of the
+    row body (`while byte_start_idx < length and column_vals[col_offset + row_start_idx + byte_start_idx] == 32`, a `while` whose
+    condition subscripts) follows every successful run of the model's `skipLead` — no subscript out of range or negative, the loop
+    ends within any fuel ≥ its trip count, `byte_start_idx` ends on the model's value and nothing else of the state changes.
+    MISSING: the row loop `body_L1` (the literal cascade against `boolLitIn Gen.boolLiterals`, the two stores, the three
+    validation modes) and the call.  The translation itself is validated differentially on every run (checks/harness/genkernels.py). -/
+theorem gen_numeric_bool_lead_partial (vals : Bytes) (base n b r fuel : Nat) (s : numeric_bool_transform.St)
+    (h : skipLead vals base n b = .ok r) (hf : n ≤ fuel) (h3 : s.p3 = ints vals) (hb : s.v0 + s.v7 = (base : Int))
+    (h10 : s.v10 = (b : Int)) (h9 : s.v9 = ((b + n : Nat) : Int)) :
+    PyRt.whileG numeric_bool_transform.guardE_L2 numeric_bool_transform.body_L2 fuel s = .ok { s with v10 := (r : Int) } :=
+  NumericBool.lead_transfer vals base n b r fuel s h hf h3 hb h10 h9
+
+/-- **partial** (see `gen_numeric_bool_lead_partial` for the full statement and what is missing): the second trimming loop
+    (`while byte_end_idx >= 0 and column_vals[col_offset + row_start_idx + byte_end_idx] == 32: byte_end_idx -= 1`) follows every
+    successful run of the model's `skipTrail` -/
+theorem gen_numeric_bool_trail_partial (vals : Bytes) (base e r fuel : Nat) (s : numeric_bool_transform.St)
+    (h : skipTrail vals base e = .ok r) (hf : e ≤ fuel) (h3 : s.p3 = ints vals) (hb : s.v0 + s.v7 = (base : Int))
+    (h11 : s.v11 = (e : Int) - 1) :
+    PyRt.whileG numeric_bool_transform.guardE_L3 numeric_bool_transform.body_L3 fuel s = .ok { s with v11 := (r : Int) - 1 } :=
+  NumericBool.trail_transfer vals base e r fuel s h hf h3 hb h11
+
+/-- the hypotheses are satisfiable: the cell `"  1 "` -/
+example : skipLead [32, 32, 49, 32] 0 4 0 = .ok 2 ∧ skipTrail [32, 32, 49, 32] 0 4 = .ok 3 := ⟨rfl, rfl⟩
 
 end Exetera.Props.C06Gen
